@@ -269,6 +269,156 @@ example : loopDo [] 4 [0] [] 0 (.lit 0) 0 (.lit 0) [.print (.lit 5), .exitDo, .p
   exit_do_leaves_this_loop [] 3 [0] [] (.lit 0) 0 _ ⟨[0], [5], .exitDo⟩ (by simp [execList, exec, eval]) rfl
 
 
+/-! ### the operators of the reference semantics are the machine's instructions
+
+  `Src.evalB` states what the language prescribes for INTEGER operands; `Arith.binop` / `Arith.unop` are the model of the
+  machine's instructions (corresponded with the real `_exec_*` on every run).  On INTEGER cells they agree, result for
+  result and error for error. -/
+
+/-- what a machine result looks like from the language's side -/
+def ofRes {F} : Arith.Res (Arith.Cell F) → Option (Except String Int)
+  | .ok (.int .i v) => some (.ok v)
+  | .trap c => some (.error c)
+  | _ => none
+
+theorem add_is_machine_add {F} (ops : Arith.FOps F) (x y : Int) :
+    ofRes (Arith.binop ops .add (.int .i x) (.int .i y)) = some (evalB .add x y) := by
+  by_cases h : inInt (x + y) = true
+  · have h' : Arith.inRange .i (x + y) = true := by simpa [inInt, Arith.inRange] using h
+    simp [Arith.binop, Arith.Cell.ty, Arith.mk, h', evalB, h, ofRes]
+  · have h' : Arith.inRange .i (x + y) = false := by simpa [inInt, Arith.inRange] using h
+    simp [Arith.binop, Arith.Cell.ty, Arith.mk, h', evalB, h, ofRes]
+
+theorem sub_is_machine_sub {F} (ops : Arith.FOps F) (x y : Int) :
+    ofRes (Arith.binop ops .sub (.int .i x) (.int .i y)) = some (evalB .sub x y) := by
+  by_cases h : inInt (x - y) = true
+  · have h' : Arith.inRange .i (x - y) = true := by simpa [inInt, Arith.inRange] using h
+    simp [Arith.binop, Arith.Cell.ty, Arith.isNumTy, Arith.mk, h', evalB, h, ofRes]
+  · have h' : Arith.inRange .i (x - y) = false := by simpa [inInt, Arith.inRange] using h
+    simp [Arith.binop, Arith.Cell.ty, Arith.isNumTy, Arith.mk, h', evalB, h, ofRes]
+
+theorem mul_is_machine_mul {F} (ops : Arith.FOps F) (x y : Int) :
+    ofRes (Arith.binop ops .mul (.int .i x) (.int .i y)) = some (evalB .mul x y) := by
+  by_cases h : inInt (x * y) = true
+  · have h' : Arith.inRange .i (x * y) = true := by simpa [inInt, Arith.inRange] using h
+    simp [Arith.binop, Arith.Cell.ty, Arith.isNumTy, Arith.mk, h', evalB, h, ofRes]
+  · have h' : Arith.inRange .i (x * y) = false := by simpa [inInt, Arith.inRange] using h
+    simp [Arith.binop, Arith.Cell.ty, Arith.isNumTy, Arith.mk, h', evalB, h, ofRes]
+
+/-- `\` and MOD: division by zero for division by zero, the truncated quotient / its remainder otherwise -/
+theorem idiv_is_machine_idiv {F} (ops : Arith.FOps F) (x y : Int) :
+    ofRes (Arith.binop ops .idiv (.int .i x) (.int .i y)) = some (evalB .idiv x y) := by
+  by_cases hy : y = 0
+  · simp [Arith.binop, Arith.Cell.ty, Arith.isIntTy, hy, evalB, ofRes]
+  · have ht := (Qbee.ExprSem.idiv_is_truncation x y).1
+    by_cases h : inInt (Int.tdiv x y) = true
+    · have h' : Arith.inRange .i (Int.tdiv x y) = true := by simpa [inInt, Arith.inRange] using h
+      simp [Arith.binop, Arith.Cell.ty, Arith.isIntTy, hy, ht, Arith.mk, h', evalB, h, ofRes]
+    · have h' : Arith.inRange .i (Int.tdiv x y) = false := by simpa [inInt, Arith.inRange] using h
+      simp [Arith.binop, Arith.Cell.ty, Arith.isIntTy, hy, ht, Arith.mk, h', evalB, h, ofRes]
+
+theorem mod_is_machine_mod {F} (ops : Arith.FOps F) (x y : Int) :
+    ofRes (Arith.binop ops .mod (.int .i x) (.int .i y)) = some (evalB .mod x y) := by
+  by_cases hy : y = 0
+  · simp [Arith.binop, Arith.Cell.ty, Arith.isIntTy, hy, evalB, ofRes]
+  · have ht := (Qbee.ExprSem.idiv_is_truncation x y).2
+    by_cases h : inInt (Int.tmod x y) = true
+    · have h' : Arith.inRange .i (Int.tmod x y) = true := by simpa [inInt, Arith.inRange] using h
+      simp [Arith.binop, Arith.Cell.ty, Arith.isIntTy, hy, ht, Arith.mk, h', evalB, h, ofRes]
+    · have h' : Arith.inRange .i (Int.tmod x y) = false := by simpa [inInt, Arith.inRange] using h
+      simp [Arith.binop, Arith.Cell.ty, Arith.isIntTy, hy, ht, Arith.mk, h', evalB, h, ofRes]
+
+/-- a comparison is `cmp` followed by the test of its result: x < y is -1 exactly when cmp gives -1 -/
+theorem lt_is_machine_cmp_lt {F} (ops : Arith.FOps F) (x y : Int) :
+    (match Arith.binop ops .cmp (.int .i x) (.int .i y) with
+     | .ok c => ofRes (Arith.unop ops .lt c)
+     | _ => none) = some (evalB .lt x y) := by
+  by_cases h1 : x = y
+  · subst h1; simp [Arith.binop, Arith.Cell.ty, Arith.unop, evalB, ofRes]
+  · by_cases h2 : x < y
+    · simp [Arith.binop, Arith.Cell.ty, Arith.unop, evalB, ofRes, h1, h2]
+    · simp [Arith.binop, Arith.Cell.ty, Arith.unop, evalB, ofRes, h1, h2]
+
+theorem gt_is_machine_cmp_gt {F} (ops : Arith.FOps F) (x y : Int) :
+    (match Arith.binop ops .cmp (.int .i x) (.int .i y) with
+     | .ok c => ofRes (Arith.unop ops .gt c)
+     | _ => none) = some (evalB .gt x y) := by
+  by_cases h1 : x = y
+  · subst h1; simp [Arith.binop, Arith.Cell.ty, Arith.unop, evalB, ofRes]
+  · by_cases h2 : x < y
+    · have h3 : ¬ (y < x) := by omega
+      have h4 : x ≤ y := by omega
+      have h5 : ¬ (y ≤ x) := by omega
+      simp [Arith.binop, Arith.Cell.ty, Arith.unop, evalB, ofRes, h1, h2, h3, h4, h5]
+    · have h3 : y < x := by omega
+      have h4 : ¬ (x ≤ y) := by omega
+      have h5 : y ≤ x := by omega
+      simp [Arith.binop, Arith.Cell.ty, Arith.unop, evalB, ofRes, h1, h2, h3, h4, h5]
+
+theorem le_is_machine_cmp_le {F} (ops : Arith.FOps F) (x y : Int) :
+    (match Arith.binop ops .cmp (.int .i x) (.int .i y) with
+     | .ok c => ofRes (Arith.unop ops .le c)
+     | _ => none) = some (evalB .le x y) := by
+  by_cases h1 : x = y
+  · subst h1; simp [Arith.binop, Arith.Cell.ty, Arith.unop, evalB, ofRes]
+  · by_cases h2 : x < y
+    · have h3 : ¬ (y < x) := by omega
+      have h4 : x ≤ y := by omega
+      have h5 : ¬ (y ≤ x) := by omega
+      simp [Arith.binop, Arith.Cell.ty, Arith.unop, evalB, ofRes, h1, h2, h3, h4, h5]
+    · have h3 : y < x := by omega
+      have h4 : ¬ (x ≤ y) := by omega
+      have h5 : y ≤ x := by omega
+      simp [Arith.binop, Arith.Cell.ty, Arith.unop, evalB, ofRes, h1, h2, h3, h4, h5]
+
+theorem ge_is_machine_cmp_ge {F} (ops : Arith.FOps F) (x y : Int) :
+    (match Arith.binop ops .cmp (.int .i x) (.int .i y) with
+     | .ok c => ofRes (Arith.unop ops .ge c)
+     | _ => none) = some (evalB .ge x y) := by
+  by_cases h1 : x = y
+  · subst h1; simp [Arith.binop, Arith.Cell.ty, Arith.unop, evalB, ofRes]
+  · by_cases h2 : x < y
+    · have h3 : ¬ (y < x) := by omega
+      have h4 : x ≤ y := by omega
+      have h5 : ¬ (y ≤ x) := by omega
+      simp [Arith.binop, Arith.Cell.ty, Arith.unop, evalB, ofRes, h1, h2, h3, h4, h5]
+    · have h3 : y < x := by omega
+      have h4 : ¬ (x ≤ y) := by omega
+      have h5 : y ≤ x := by omega
+      simp [Arith.binop, Arith.Cell.ty, Arith.unop, evalB, ofRes, h1, h2, h3, h4, h5]
+
+theorem eq_is_machine_cmp_eq {F} (ops : Arith.FOps F) (x y : Int) :
+    (match Arith.binop ops .cmp (.int .i x) (.int .i y) with
+     | .ok c => ofRes (Arith.unop ops .eq c)
+     | _ => none) = some (evalB .eq x y) := by
+  by_cases h1 : x = y
+  · subst h1; simp [Arith.binop, Arith.Cell.ty, Arith.unop, evalB, ofRes]
+  · by_cases h2 : x < y
+    · have h3 : ¬ (y < x) := by omega
+      have h4 : x ≤ y := by omega
+      have h5 : ¬ (y ≤ x) := by omega
+      simp [Arith.binop, Arith.Cell.ty, Arith.unop, evalB, ofRes, h1, h2, h3, h4, h5]
+    · have h3 : y < x := by omega
+      have h4 : ¬ (x ≤ y) := by omega
+      have h5 : y ≤ x := by omega
+      simp [Arith.binop, Arith.Cell.ty, Arith.unop, evalB, ofRes, h1, h2, h3, h4, h5]
+
+theorem ne_is_machine_cmp_ne {F} (ops : Arith.FOps F) (x y : Int) :
+    (match Arith.binop ops .cmp (.int .i x) (.int .i y) with
+     | .ok c => ofRes (Arith.unop ops .ne c)
+     | _ => none) = some (evalB .ne x y) := by
+  by_cases h1 : x = y
+  · subst h1; simp [Arith.binop, Arith.Cell.ty, Arith.unop, evalB, ofRes]
+  · by_cases h2 : x < y
+    · have h3 : ¬ (y < x) := by omega
+      have h4 : x ≤ y := by omega
+      have h5 : ¬ (y ≤ x) := by omega
+      simp [Arith.binop, Arith.Cell.ty, Arith.unop, evalB, ofRes, h1, h2, h3, h4, h5]
+    · have h3 : y < x := by omega
+      have h4 : ¬ (x ≤ y) := by omega
+      have h5 : y ≤ x := by omega
+      simp [Arith.binop, Arith.Cell.ty, Arith.unop, evalB, ofRes, h1, h2, h3, h4, h5]
+
 /-! ### the reference semantics is well defined -/
 
 /-- the fuel only bounds the search for the end of a run: a program that ends (normally, by END, or with an error) with some
